@@ -8449,6 +8449,11 @@ void SoPlexBase<R>::_ensureRealLPLoaded()
       _realLP = &_solver;
       _isRealLPLoaded = true;
 
+      // the scaler of a persistently scaled LP works on the scaling exponents stored in the LP object it was set up
+      // on; that was the copy destroyed above
+      if(_isRealLPScaled && _scaler != nullptr)
+         _scaler->attach(*_realLP);
+
       if(_hasBasis)
       {
          ///@todo this should not fail even if the basis is invalid (wrong dimension or wrong number of basic
